@@ -353,7 +353,7 @@ class Checker:
             op = r['op']
             if op == 'EXC':
                 vals = [v for v in job[1:4] if isinstance(v, float)]
-                if r['exc'] == 'Assert' and 'assert s == 0' not in r['msg'] and any(not ctor_safe(v) for v in vals):
+                if r['exc'] in ('Assert', 'OverflowError') and any(not ctor_safe(v) for v in vals):
                     self.viol(None, 'ctor assert near-power-of-two', {'job': repr(job), 'rec': r})
                 else:
                     self.viol(None, 'exception %s in %s' % (r['exc'], job[0]), {'job': repr(job), 'rec': r})
@@ -509,13 +509,13 @@ def run(ctx):
     plan = []   # (m, t, no_prss, s, E, jobs-params)
     for (s, E) in types:
         big = s > 11
-        plan.append((1, 0, False, s, E, dict(npairs=ctx.n(60, 500) if not big else ctx.n(36, 350), nops=None,
-                                             nio=ctx.n(30, 150), nchain=ctx.n(20, 80), nrop=ctx.n(8, 30))))
+        plan.append((1, 0, False, s, E, dict(npairs=ctx.n(36, 500) if not big else ctx.n(24, 350), nops=None,
+                                             nio=ctx.n(24, 150), nchain=ctx.n(14, 80), nrop=ctx.n(6, 30))))
     plan.append((1, 0, False, 53, 11, dict(npairs=ctx.n(6, 30), nops=4, nio=6, nchain=2, nrop=2)))
     for (m, t, np_) in [(3, 1, False), (3, 1, True), (2, 0, False)]:
         for (s, E) in [(11, 5), (24, 8), (5, 4)]:
             small = (s == 24)
-            plan.append((m, t, np_, s, E, dict(npairs=ctx.n(8 if small else 12, 40), nops=3, nio=ctx.n(4, 10),
+            plan.append((m, t, np_, s, E, dict(npairs=ctx.n(6 if small else 9, 40), nops=3, nio=ctx.n(3, 10),
                                                nchain=ctx.n(2, 8), nrop=ctx.n(1, 4))))
     if ctx.tier == 'thorough':
         for (m, t, np_) in [(4, 1, False), (5, 2, True), (2, 0, True)]:
@@ -523,6 +523,8 @@ def run(ctx):
     checkers = []
     for (m, t, np_, s, E, jp) in plan:
         g = Gen(rng, s, E)
+        if E > 9:       # keep |x| well inside the Python float range (output computes s * 2**e in floats)
+            g.emin, g.emax = -300, 300
         jobs = gen_jobs(g, **jp)
         # F-C05 replay inputs in every configuration of the matching type
         for (fs, fE, x) in FC05:
@@ -600,7 +602,7 @@ def run(ctx):
                 part = idx[j:j + 25]
                 gexprs.append('[' + '; '.join(exprs[i] for i in part) + ']')
                 gidx.append(part)
-        gres = ctx.coq_eval(['MPyC.Flt'], gexprs, chunk=12)
+        gres = ctx.coq_eval(['MPyC.Flt'], gexprs, chunk=max(4, len(gexprs) // 12 + 1))
         res = [None] * len(exprs)
         for r, part in zip(gres, gidx):
             for k, i in enumerate(part):
